@@ -444,6 +444,12 @@ func (b *builder) buildC01() {
 	var plans []connPlan
 	for i := 0; i < nc; i++ {
 		c := Conn{Cfg: b.msgCfg(), Obj: -1, Compact: b.r.Chance(1, 2)}
+		if b.r.Chance(1, 10) {
+			// the flags are a per-call argument: some receivers change them between the calls of
+			// one message (the one-shot side of the comparison gets the flags of the call it mirrors)
+			c.Cfg.LateFrom = b.r.Range(1, 5)
+			c.Cfg.FlagsLate = uint(b.r.Intn(4))
+		}
 		o := gen.MsgOpts{Request: -1, CL: gen.CLAny, BodyMax: 600, WildNumbers: b.r.Chance(1, 4), MaxHdrs: b.r.PickInt(0, 0, 3, 8, 40)}
 		if b.r.Chance(1, 60) {
 			o.BodyMax = 60000
